@@ -58,6 +58,7 @@ impl WorldC {
         let Some((client, transport)) = s.client.as_mut() else { return };
         client.update(d);
         let nc_disc_before = transport.disconnect_reason().is_some();
+        let msg_disc_before = client.is_disconnected();
         let r1 = transport.update(d, client);
         let r2 = transport.send_packets(client);
         if let Err(e) = &r1 {
@@ -68,11 +69,11 @@ impl WorldC {
         // C20 on the client: after NetcodeClientTransport::update both layers agree on whether the session has ended
         if r1.is_ok() || !matches!(r1, Err(renet_netcode::NetcodeTransportError::IO(_))) {
             obs.count("oracle.C20.client_lockstep");
-            // a message-layer disconnect is pushed down within the same update; a handshake-layer disconnect that existed
-            // before the update is pushed up by it (one decided inside the update is pushed up by the next one)
+            // a disconnect that existed in one layer before the update is pushed to the other layer by it (one decided inside
+            // the update, by a packet it processed or a timer it advanced, is pushed across by the next one)
             let msg_disc = client.is_disconnected();
             let nc_disc = transport.disconnect_reason().is_some();
-            if (msg_disc && !nc_disc) || (nc_disc_before && !msg_disc) {
+            if (msg_disc_before && !nc_disc) || (nc_disc_before && !msg_disc) {
                 obs.violate(
                     "C20",
                     "client-layers-disagree-after-update",
